@@ -25,9 +25,14 @@ class T1(BaseEvent):
     name: str = ''
 
 
-class T2(BaseEvent):
+class T2Pinned(BaseEvent):
+    """the second event type is a class that PINS its event_type ('T2') instead of taking it from the class name: expect(TheClass) and expect('T2') mean the same events"""
+    event_type: str = 'T2'
     v: int = 0
     name: str = ''
+
+
+T2 = T2Pinned
 
 
 def _is1(e):
@@ -109,7 +114,7 @@ class ExpectWorld:
             bus = self.bus = EventBus(name='A')
 
             def probe(e):
-                self.rec('processed', e.name, type(e).__name__, e.v)
+                self.rec('processed', e.name, e.event_type, e.v)
                 return 'p'
 
             self._probe = probe
